@@ -4,11 +4,13 @@ from ..common import d42  # noqa: F401
 from d42 import substitute, validate
 from d42.substitution.errors import SubstitutionError
 
-MODULE = "D42.Props.C12Idem"
+MODULE = "D42.Props.C12All"
 THEOREMS = ["subst_error_kind", "fromNativeS_error_kind", "subst_any_nonempty", "subst_listE_exact",
             "subst_idempotent_scalar", "subst_idempotent", "subst_result_subAccepts", "subst_fromNative_self",
-            "subst_idempotent_nan_counterexample"]
-FILES = ["D42/Model/Data.lean", "D42/Model/Validate.lean", "D42/Model/Subst.lean", "D42/Props/C14.lean", "D42/Props/C12.lean", "D42/Props/C05.lean", "D42/Props/C12Idem.lean"]
+            "subst_idempotent_nan_counterexample",
+            "fromNative_eq_extracted", "subst_scalar_eq_extracted"]
+FILES = ["D42/Model/Data.lean", "D42/Model/Validate.lean", "D42/Model/Subst.lean", "D42/Props/C14.lean", "D42/Props/C12.lean", "D42/Props/C05.lean", "D42/Props/C12Idem.lean",
+         "D42/Model/CheckProg.lean", "D42/Model/SubstProg.lean", "D42/Gen/SubstProg.lean", "D42/Props/SubstProg.lean", "D42/Props/C12All.lean"]
 
 EVIDENCE = dict(
     level="proof",
@@ -62,6 +64,11 @@ def oracle(ctx, cases):
 
 
 def run(ctx):
+    from .. import extract_substitutor
+    ok, msg = extract_substitutor.run()
+    if not ok:
+        ctx.breakage("translation", "substitutor / from_native extraction failed (d42/utils/_from_native.py or the scalar "
+                     "visit_* methods of d42/substitution/_substitutor.py no longer consist of the recognised idioms): " + msg)
     runner.prove(ctx, MODULE, THEOREMS, FILES)
     cases = substcorr.batch(ctx, ctx.n(90, 700), customs=True) + substcorr.list_form_cases(ctx) + substcorr.open_dict_any_cases(ctx, ctx.n(150, 1500)) + substcorr.untyped_pair_cases(ctx) + substcorr.untyped_edge_cases(ctx) + substcorr.list_window_cases(ctx) + substcorr.float_precision_cases(ctx) + substcorr.many_errors_cases(ctx) + substcorr.list_partial_dict_cases(ctx)
     for c in cases:
